@@ -119,5 +119,6 @@ def class_inv(repo, clsname, prefix=None, exclude=None):
     if prefix:
         out = [o for o in out if o.name and o.name.startswith(prefix)]
     if exclude:
-        out = [o for o in out if not (o.name and o.name.startswith(exclude))]
+        exs = exclude if isinstance(exclude, (list, tuple)) else [exclude]
+        out = [o for o in out if not (o.name and any(o.name.startswith(e) for e in exs))]
     return out
